@@ -14,7 +14,7 @@ from vlib import gen
 
 PROPERTY = "C12"
 LEVEL = "exploration"
-TIMEOUT = {"quick": 900, "thorough": 5400}
+TIMEOUT = {"quick": 1500, "thorough": 7200}
 RULE = (
     "recipes from vlib.gen.Gen, each run unoptimised (every intermediate is written) and optimised (fused ops) on "
     "single-threaded/threads executors; every block write of every task is observed. Non-trivial = the run "
